@@ -73,6 +73,13 @@ Proof.
   destruct b; simpl length; lia.
 Qed.
 
+Lemma countp_all_true {A} (l : list A) :
+  countp (fun b => b) (all_true l) = zlen l.
+Proof.
+  unfold zlen. induction l as [|a l IH]; [reflexivity|].
+  cbn [all_true map countp length]. unfold all_true in IH. rewrite IH. lia.
+Qed.
+
 Lemma select_map {A B} (f : A -> B) (m : list bool) : forall xs,
   select m (map f xs) = map f (select m xs).
 Proof.
@@ -396,6 +403,75 @@ Proof.
   rewrite zsum_insert. now rewrite IH.
 Qed.
 
+(* ---- SD (np.std): variance = var_num d / (64 n^2) ------------------------ *)
+
+Lemma zsum_sq_dev (m t : Z) (d : list Z) :
+  zsum (map (fun x => (m * x - t) * (m * x - t)) d)
+  = m * m * zsum (map (fun x => x * x) d) - 2 * m * t * zsum d
+    + zlen d * t * t.
+Proof.
+  unfold zlen. induction d as [|a d IH]; simpl length; simpl zsum; simpl map;
+    [lia|].
+  simpl zsum. rewrite IH. lia.
+Qed.
+
+(* definition: n * var_num = sum (n*x - sum)^2, i.e. var_num/n^2 is the mean
+   squared deviation from the mean *)
+Lemma var_num_definition d :
+  zlen d * var_num d
+  = zsum (map (fun x => (zlen d * x - zsum d) * (zlen d * x - zsum d)) d).
+Proof. rewrite zsum_sq_dev. unfold var_num. lia. Qed.
+
+Lemma zsum_sq_nonneg (f : Z -> Z) d : 0 <= zsum (map (fun x => f x * f x) d).
+Proof. induction d as [|a d IH]; simpl; [lia|]. nia. Qed.
+
+Lemma var_num_nonneg d : 0 <= var_num d.
+Proof.
+  destruct d as [|a d]; [unfold var_num, zlen; simpl; lia|].
+  pose proof (var_num_definition (a :: d)) as H.
+  pose proof (zsum_sq_nonneg
+                (fun x => zlen (a :: d) * x - zsum (a :: d)) (a :: d)) as Hn.
+  cbv beta in Hn. rewrite <- H in Hn.
+  assert (0 < zlen (a :: d)) by (unfold zlen; simpl length; lia).
+  nia.
+Qed.
+
+Lemma zsum_sq_zero_iff (n t : Z) l :
+  zsum (map (fun x => (n * x - t) * (n * x - t)) l) = 0
+  <-> forall x, In x l -> n * x = t.
+Proof.
+  induction l as [|b l IH]; cbn [map zsum fold_right In].
+  - split; [intros _ x []|reflexivity].
+  - pose proof (zsum_sq_nonneg (fun x => n * x - t) l) as Hp.
+    cbv beta in Hp. fold (zsum (map (fun x => (n * x - t) * (n * x - t)) l)).
+    split.
+    + intros H0.
+      pose proof (Z.square_nonneg (n * b - t)) as Hs.
+      assert (Hb : (n * b - t) * (n * b - t) = 0) by lia.
+      assert (Hl : zsum (map (fun x => (n * x - t) * (n * x - t)) l) = 0)
+        by lia.
+      intros x [<-|Hx]; [|apply IH; assumption].
+      apply Z.mul_eq_0 in Hb. lia.
+    + intros Hall. assert (Hb : n * b = t) by (apply Hall; now left).
+      assert (Hr : zsum (map (fun x => (n * x - t) * (n * x - t)) l) = 0)
+        by (apply IH; intros x Hx; apply Hall; now right).
+      rewrite Hr. replace (n * b - t) with 0 by lia. lia.
+Qed.
+
+(* the variance vanishes exactly for constant data *)
+Lemma var_num_zero_iff d :
+  var_num d = 0 <-> forall x, In x d -> zlen d * x = zsum d.
+Proof.
+  destruct d as [|a d].
+  - split; [intros _ x []|reflexivity].
+  - assert (Hn : 0 < zlen (a :: d)) by (unfold zlen; simpl length; lia).
+    pose proof (var_num_definition (a :: d)) as H.
+    rewrite <- zsum_sq_zero_iff, <- H. split; [intros ->; lia|nia].
+Qed.
+
+Example var_example : var_num [8; 24] = 256 /\ var_num [5; 5; 5] = 0.
+Proof. split; reflexivity. Qed.
+
 (* ---- mode ---------------------------------------------------------------- *)
 
 Lemma best_key_spec keys : forall cands best bc,
@@ -544,6 +620,8 @@ Section AnalysisProofs.
   Variable logf expf : fv -> fv.
   Variable K : Type.
   Variable core : K -> list fv -> list fv -> list fv -> list fv -> list D.
+  Variable is_none : K -> bool.
+  Variable done : D.
   Variable A : Type.
   Variable spacing : list fv -> A.
   Variable mesh : option A -> option A -> A -> A -> list fv -> list fv ->
@@ -551,8 +629,9 @@ Section AnalysisProofs.
   Variable interp : fv -> fv -> Z.
   Variable dsgrid : list fv -> list fv -> Z -> bool -> list bool.
 
-  Notation kde_scatter := (kde_scatter D dnan logf K core).
-  Notation kde_contour := (kde_contour D dnan logf expf K core A spacing mesh).
+  Notation kde_scatter := (kde_scatter D dnan logf K core is_none done).
+  Notation kde_contour :=
+    (kde_contour D dnan logf expf K core is_none done A spacing mesh).
   Notation ds_quantile_level := (ds_quantile_level interp).
   Notation downsampled := (downsampled logf dsgrid).
 
@@ -564,6 +643,18 @@ Section AnalysisProofs.
     intros Hx Hy. unfold C12.kde_scatter.
     now rewrite (select_ext fall xs xs' Hx), (select_ext fall ys ys' Hy).
   Qed.
+
+  (* kde_type "none": one [done] per selected event / per position *)
+  Lemma kde_method_none k ex ey pos : is_none k = true ->
+    kde_method D dnan K core is_none done k ex ey pos
+    = map (fun _ => done)
+          (match pos with None => ex | Some (px, _) => px end).
+  Proof. intros H. unfold kde_method. now rewrite H. Qed.
+
+  Lemma kde_method_wrapped k ex ey pos : is_none k = false ->
+    kde_method D dnan K core is_none done k ex ey pos
+    = wrapped D dnan K core k ex ey pos.
+  Proof. intros H. unfold kde_method. now rewrite H. Qed.
 
   Lemma kde_contour_noninterference fall k sx sy xacc yacc xs xs' ys ys' :
     agree fall xs xs' -> agree fall ys ys' ->
@@ -642,15 +733,17 @@ Section AnalysisProofs.
   (* the returned points; the returned mask lives in the index space of the
      full dataset and is related to the points by [scatter_mask_select] *)
   Lemma downsampled_filtered_eq_restricted fall sx sy n rm xs ys :
-    length xs = length ys ->
+    length fall = length xs -> length xs = length ys ->
     let rx := select fall xs in
     let ry := select fall ys in
     fst (downsampled fall sx sy n rm xs ys)
     = fst (downsampled (all_true rx) sx sy n rm rx ry).
   Proof.
-    intros Hl rx ry. unfold C12.downsampled. simpl.
+    intros Hf Hl rx ry. unfold C12.downsampled. simpl.
+    rewrite countp_all_true. subst rx ry.
+    rewrite (select_count fall xs Hf).
     rewrite select_all_true.
-    rewrite (select_all_true_gen rx ry (select_length_eq fall xs ys Hl)).
+    rewrite (select_all_true_gen _ _ (select_length_eq fall xs ys Hl)).
     reflexivity.
   Qed.
 
@@ -681,8 +774,8 @@ Section AnalysisProofs.
     kde_scatter fall k sx sy xs ys pos
     = (match xs with
        | [] => []
-       | _ => wrapped D dnan K core k (apply_scale logf sx xs)
-                      (apply_scale logf sy ys)
+       | _ => kde_method D dnan K core is_none done k
+                      (apply_scale logf sx xs) (apply_scale logf sy ys)
                       (match pos with
                        | None => None
                        | Some (px, py) => Some (apply_scale logf sx px,
@@ -694,13 +787,14 @@ Section AnalysisProofs.
     ds_quantile_level fall a b xs ys = quantile_level interp a b xs ys /\
     fst (downsampled fall sx sy n rm xs ys)
     = (let idx := dsgrid (apply_scale logf sx xs) (apply_scale logf sy ys)
-                         n rm in (select idx xs, select idx ys)) /\
+                         (Z.min n (zlen xs)) rm
+       in (select idx xs, select idx ys)) /\
     tsv_columns true fall [xs; ys] = [xs; ys].
   Proof.
     intros Hl fall. unfold fall, filter_all.
     unfold C12.kde_scatter, C12.ds_quantile_level, C12.downsampled,
       tsv_columns.
-    simpl map. simpl fst.
+    simpl map. simpl fst. rewrite countp_all_true.
     rewrite !select_all_true, !(select_all_true_gen xs ys Hl).
     repeat split; reflexivity.
   Qed.
@@ -798,18 +892,20 @@ Lemma downsampled_mask_spec (logf : fv -> fv)
       (dsgrid : list fv -> list fv -> Z -> bool -> list bool)
       fall sx sy n rm xs ys :
   length fall = length xs -> length xs = length ys ->
-  length (dsgrid (apply_scale logf sx (select fall xs))
-                 (apply_scale logf sy (select fall ys)) n rm)
-  = length (select fall xs) ->
+  (forall s, length (dsgrid (apply_scale logf sx (select fall xs))
+                            (apply_scale logf sy (select fall ys)) s rm)
+             = length (select fall xs)) ->
   let r := downsampled logf dsgrid fall sx sy n rm xs ys in
   select (snd r) xs = fst (fst r) /\ select (snd r) ys = snd (fst r) /\
   length (snd r) = length fall.
 Proof.
   intros Hl Hxy Hi. unfold downsampled. cbn [fst snd].
+  set (s := Z.min n (countp (fun b : bool => b) fall)).
+  specialize (Hi s).
   destruct (scatter_mask_select fall _ xs Hl Hi) as [H1 H2].
   assert (Hly : length fall = length ys) by lia.
   assert (Hiy : length (dsgrid (apply_scale logf sx (select fall xs))
-                 (apply_scale logf sy (select fall ys)) n rm)
+                 (apply_scale logf sy (select fall ys)) s rm)
                 = length (select fall ys)).
   { rewrite Hi. now apply select_length_eq. }
   destruct (scatter_mask_select fall _ ys Hly Hiy) as [H3 _].
@@ -821,8 +917,34 @@ Example scatter_example :
   scatter_flat (true, [true; false; true; true], 0, 1,
                 [(0, 8); (0, 999); (1, 0); (0, 24)],
                 [(0, 16); (2, 0); (0, 8); (0, -8)],
-                false, [], [])
+                false, [], [], false)
   = [0; 424; 1; 0; 1; 0].
+Proof. reflexivity. Qed.
+
+(* kde_type = "none": ones for every selected event, also where a value is
+   nan (kde_none is not wrapped by ignore_nan_inf) *)
+Example scatter_none_example :
+  scatter_flat (true, [true; false; true; true], 0, 1,
+                [(0, 8); (0, 999); (1, 0); (0, 24)],
+                [(0, 16); (2, 0); (0, 8); (0, -8)],
+                false, [], [], true)
+  = [0; 8; 0; 8; 0; 8].
+Proof. reflexivity. Qed.
+
+Example contour_example :
+  contour_flat (true, [true; true; false; true],
+                [(0, 0); (0, 16); (0, 999); (1, 0)],
+                [(0, 8); (0, 24); (2, 0); (0, 8)], 3, 2, false)
+  = [0; 6;  0; 0; 0; 0; 0; 8; 0; 8; 0; 16; 0; 16;
+     0; 8; 0; 24; 0; 8; 0; 24; 0; 8; 0; 24;
+     0; 640; 0; 816; 0; 696; 0; 872; 0; 752; 0; 928].
+Proof. reflexivity. Qed.
+
+Example down_example :
+  down_flat (true, [true; false; true; true],
+             [(0, 8); (0, 999); (1, 0); (0, 24)],
+             [(0, 16); (2, 0); (0, 8); (0, -7)], 2, false)
+  = [2; 0; 8; 1; 0; 0; 16; 0; 8; 1; 0; 1; 0].
 Proof. reflexivity. Qed.
 
 Example agree_example :
